@@ -369,13 +369,13 @@ class Engine(object):
 
     def branch(self, cond):
         """Decide a symbolic boolean z3 expression; returns a Python bool."""
-        if not self.symbolic:
-            raise Unsupported("symbolic branch in concrete mode")
         cond = z3.simplify(cond)
         if z3.is_true(cond):
             return True
         if z3.is_false(cond):
             return False
+        if not self.symbolic:
+            raise Unsupported("symbolic branch in concrete mode")
         key = cond.get_id()
         hit = self.cache.get(key)
         if hit is not None:
